@@ -697,6 +697,48 @@ def gen_seg_seq(seed, n, tags):
     return out
 
 
+def gen_seg_wrap(seed, n, tags):
+    """Groups of six: a pipeline of a few thousand bytes whole (base) and in three to six segments that end inside
+    requests, with cuts near the sizes at which the inbound ring buffer is created and grows (1024, 2048, 4096 ...), so
+    that leftovers accumulate, the buffer's read offset moves and its contents wrap around."""
+    rng = random.Random("segwrap/%s" % seed)
+    slots = ["A", "A2", "B", "C"]
+    out = []
+    for p in range(n):
+        reqs = []
+        for _ in range(rng.randint(30, 90)):
+            k = rng.choice(["get", "set", "mget", "mset", "del", "ping", "set", "get"])
+            if k in ("get", "set"):
+                reqs.append({"k": k, "slots": [rng.choice(slots)], "dups": [-1]})
+            elif k == "ping":
+                reqs.append({"k": k, "slots": [], "dups": []})
+            else:
+                sl, du = gen_keylist(rng, rng.choice([2, 3, 5, 8]), slots)
+                reqs.append({"k": k, "slots": sl, "dups": du})
+        lens = [len(concrete(tags, "c1", i + 1, r)) for i, r in enumerate(reqs)]
+        starts = [sum(lens[:i]) for i in range(len(reqs))]
+        L = sum(lens)
+        for v in range(6):
+            cuts = []
+            if v:
+                marks = [m + d for m in (1024, 2048, 3072, 4096, 5120) for d in (-300, -100, -1, 0, 1, 100, 300, 900) if 0 < m + d < L]
+                cuts = sorted(set(rng.sample(marks, min(len(marks), rng.choice([2, 3, 4]))) + [rng.randint(1, L - 1) for _ in range(rng.choice([1, 2]))]))
+            if v in (1, 2, 3):
+                # one long request D that is still incomplete after two further segments: a cut inside an early request, one
+                # near a size mark, and two or three inside D
+                ds = [i for i in range(len(reqs)) if lens[i] >= 150 and starts[i] > 1100]
+                if ds:
+                    d = rng.choice(ds)
+                    inside = sorted(rng.sample(range(starts[d] + 5, starts[d] + lens[d] - 5), rng.choice([2, 3])))
+                    early = rng.randint(5, 900)
+                    mark = rng.choice([m for m in (1024, 2048, 3072, 4096) if m < starts[d]] or [starts[d] - 50])
+                    cuts = sorted(set([early, mark + rng.choice([-100, 0, 40])] + inside))
+                    cuts = [c for c in cuts if 0 < c < L]
+            steps = [{"stim": [{"op": "send", "c": "c1", "reqs": reqs, "cuts": cuts}]}, {"stim": [], "settle": True}] + drain_steps(3, 200)
+            out.append(_norm({"id": "segwrap-%s-%d-%d" % (seed, p, v), "role": "base" if v == 0 else "seg", "steps": json.loads(json.dumps(steps))}))
+    return out
+
+
 def gen_seg(seed, npipes, cuts_per, tags):
     """Groups of 1 + cuts_per scenarios: the unsegmented pipeline (role base) and segmented twins (role seg)."""
     rng = random.Random("seg/%s" % seed)
